@@ -134,3 +134,152 @@ class Oracle:
 
     def q_token_bytes(self, q):
         return {"b": hx(self.token_stream(int(q["k"]), int(q["n"])))}
+
+
+# ------------------------------------------------------------------------------------------------
+# certificates, chains, Android key description, built-in roots
+# ------------------------------------------------------------------------------------------------
+from cryptography import x509 as _x509
+from cryptography.x509.oid import ExtensionOID as _ExtOID, NameOID as _NameOID
+from OpenSSL.crypto import X509 as _X509, X509Store as _X509Store, X509StoreContext as _X509StoreContext, \
+    X509StoreContextError as _X509StoreContextError
+
+APPLE_NONCE_OID = "1.2.840.113635.100.8.2"
+ANDROID_KEYDESC_OID = "1.3.6.1.4.1.11129.2.1.17"
+
+
+def _san_view(cert):
+    try:
+        ext = cert.extensions.get_extension_for_oid(_ExtOID.SUBJECT_ALTERNATIVE_NAME)
+    except _x509.ExtensionNotFound:
+        return None
+    gns = list(ext.value)
+    if not gns:
+        return {"kind": "empty"}
+    g = gns[0]
+    if isinstance(g, _x509.DirectoryName):
+        return {"kind": "dirName", "attrs": [[a.oid.dotted_string, str(a.value)] for a in g.value]}
+    v = g.value
+    if isinstance(v, (str, bytes)):
+        if len(v) == 0:
+            return {"kind": "dirName", "attrs": []}   # iterating an empty str/bytes: no attributes
+        return {"kind": "text"}
+    return {"kind": "otherKind"}
+
+
+def cert_view(der):
+    try:
+        cert = _x509.load_der_x509_certificate(der)
+    except Exception:
+        return None
+    try:
+        pk = cert.public_key()
+        key = key_view(pk)
+        spki = hx(pk.public_bytes(serialization.Encoding.DER, serialization.PublicFormat.SubjectPublicKeyInfo))
+    except Exception as e:
+        return None
+    v = {"key": key, "spki": spki, "version_v3": cert.version == _x509.Version.v3,
+         "subject_len": str(len(cert.subject)),
+         "subject_cns": [a.value if isinstance(a.value, str) else repr(a.value)
+                         for a in cert.subject.get_attributes_for_oid(_NameOID.COMMON_NAME)],
+         "pem": hx(cert.public_bytes(serialization.Encoding.PEM)),
+         "san": None, "eku": None, "bc_ca": None, "apple_nonce": None, "key_desc": None}
+    try:
+        exts = cert.extensions
+        v["exts_ok"] = True
+    except Exception:
+        v["exts_ok"] = False
+        return v
+    v["san"] = _san_view(cert)
+    try:
+        v["eku"] = [o.dotted_string for o in exts.get_extension_for_oid(_ExtOID.EXTENDED_KEY_USAGE).value]
+    except _x509.ExtensionNotFound:
+        pass
+    try:
+        v["bc_ca"] = bool(exts.get_extension_for_oid(_ExtOID.BASIC_CONSTRAINTS).value.ca)
+    except _x509.ExtensionNotFound:
+        pass
+    for fld, oid in (("apple_nonce", APPLE_NONCE_OID), ("key_desc", ANDROID_KEYDESC_OID)):
+        try:
+            e = exts.get_extension_for_oid(_x509.ObjectIdentifier(oid))
+            v[fld] = hx(e.value.value)
+        except _x509.ExtensionNotFound:
+            pass
+    return v
+
+
+def builtin_pem(name):
+    import webauthn.helpers.known_root_certs as kr
+    return bytes(getattr(kr, name))
+
+
+def root_pem(r):
+    return bytes.fromhex(r["pem"]) if "pem" in r else builtin_pem(r["builtin"])
+
+
+def chain_verify(leaf_der, inter_ders, root_pems):
+    try:
+        leaf = _X509().from_cryptography(_x509.load_der_x509_certificate(leaf_der))
+    except Exception:
+        return "prep:leaf"
+    try:
+        inter = [_X509().from_cryptography(_x509.load_der_x509_certificate(d)) for d in inter_ders]
+    except Exception:
+        return "prep:intermediate"
+    store = _X509Store()
+    try:
+        for pem in root_pems:
+            store.add_cert(_X509().from_cryptography(_x509.load_pem_x509_certificate(pem)))
+    except Exception:
+        return "prep:root"
+    try:
+        _X509StoreContext(store=store, certificate=leaf, chain=inter).verify_certificate()
+    except _X509StoreContextError:
+        return "invalid"
+    return "ok"
+
+
+def key_desc_view(der):
+    from .sim import android_asn1 as A
+    from asn1crypto.core import Void
+    try:
+        kd = A.KeyDescription.load(der)
+        sw, tee = kd["softwareEnforced"], kd["teeEnforced"]
+        chal = bytes(kd["attestationChallenge"])
+
+        def allapps(al):
+            v = al["allApplications"]
+            return (not isinstance(v, Void)), (v.native is None)
+        sp, sn = allapps(sw)
+        tp, tn = allapps(tee)
+        origin = tee["origin"].native
+        purpose = tee["purpose"].native
+        return {"attestation_challenge": hx(chal), "sw_allapps_present": sp, "sw_allapps_native_is_none": sn,
+                "tee_allapps_present": tp, "tee_allapps_native_is_none": tn,
+                "tee_origin": None if origin is None else str(int(origin)),
+                "tee_purpose": None if purpose is None else [str(int(x)) for x in purpose]}
+    except Exception:
+        return None
+
+
+def _q_x509_load(self, q):
+    return {"view": cert_view(bytes.fromhex(q["der"]))}
+
+
+def _q_chain_verify(self, q):
+    return {"r": chain_verify(bytes.fromhex(q["leaf"]), [bytes.fromhex(x) for x in q["inter"]],
+                              [root_pem(r) for r in q["roots"]])}
+
+
+def _q_key_description(self, q):
+    return {"view": key_desc_view(bytes.fromhex(q["der"]))}
+
+
+def _q_builtin_pem(self, q):
+    return {"b": hx(builtin_pem(q["name"]))}
+
+
+Oracle.q_x509_load = _q_x509_load
+Oracle.q_chain_verify = _q_chain_verify
+Oracle.q_key_description = _q_key_description
+Oracle.q_builtin_pem = _q_builtin_pem
